@@ -117,7 +117,7 @@ class C18(CheckBase):
                 cmd = ['cat']
         variants = []
         for _ in range(rng.randint(2, 4)):
-            k = rng.weighted([(4, 'diag'), (3, 'ui'), (3, 'columns'), (3, 'noise')])
+            k = rng.weighted([(4, 'diag'), (3, 'ui'), (3, 'columns'), (3, 'noise'), (2, 'order')])
             v = {'k': k}
             if k == 'diag':
                 v['opts'] = rng.choice([['--verbose'], ['--show-config'], ['--verbose', '--show-config'], ['--show-config', '--verbose']])
@@ -129,6 +129,8 @@ class C18(CheckBase):
                 v['columns'] = rng.choice(COLUMNS)
                 v['tty'] = rng.chance(0.8)
                 v['ui'] = rng.choice(UIS + [None, None])
+            elif k == 'order':
+                v['perm'] = rng.below(720)
             else:
                 v['aslr'] = rng.chance(0.7)
                 v['perturb'] = rng.choice([None, '1', '85', '170', '255'])
@@ -228,6 +230,31 @@ class C18(CheckBase):
                                     desc, self.atom(case, v))
                 elif r['stdout'] != base['stdout']:
                     out.violate('C18.b', '%s: failing cat printed different stdout' % label, desc, self.atom(case, v))
+            elif k == 'order':
+                # the same settings in another order (each group is one option with its argument; --file is one of them)
+                groups = [['--file', name]]
+                if case['base_verbose']:
+                    groups.append(['--verbose'])
+                i = 0
+                while i < len(bg):
+                    groups.append(bg[i:i + 2])
+                    i += 2
+                if case['base_ui']:
+                    groups.append(['--ui', case['base_ui']])
+                if len(groups) < 2:
+                    continue
+                import itertools
+                perms = list(itertools.permutations(range(len(groups))))
+                perm = perms[v['perm'] % len(perms)]
+                argv = ['dfs'] + [x for gi in perm for x in groups[gi]] + case['cmd']
+                r = ctx.sk.run(sb, exe, argv)
+                out.add_run(r)
+                out.fault('option-order', True)
+                out.sig(src, case['cmd'][0], 'order', r.exit_class(), r['log_hash'])
+                if r.exit_class() != base.exit_class() or r['stdout'] != base['stdout']:
+                    out.violate('C18.e', '%s vs the same options in another order (%s): %s -> %s, stdout %s' % (
+                        ' '.join(bargv[1:]), ' '.join(argv[1:]), base.exit_class(), r.exit_class(), 'identical' if r['stdout'] == base['stdout'] else 'differs'),
+                        desc, self.atom(case, v))
             else:
                 env = []
                 if v['perturb']:
